@@ -466,8 +466,17 @@ def r_grade_accept(rep, f, fn, sx, hk, g, seen_E):
             if x == UNKNOWN:
                 return (Fraction(0), Fraction(0))
             return (x[0], Fraction(0)) if isinstance(x, tuple) else x
-        g2.atom_grade = lambda a: flat(ag_(a))
-        g2.call_grade = lambda op, gs, args, atom: flat(cg_(op, gs, args, atom)) if cg_ is not None else (Fraction(0), Fraction(0))
+        # (only stored values - buffer elements, stage values - get the default; iterator items and other unknowns stay
+        # unknown: an accumulation over an iterator is a reduction the grading cannot see)
+        g2.atom_grade = lambda a: (flat(ag_(a)) if (ag_(a) != UNKNOWN or BUFATOM.match(a) or FRE.match(a)) else UNKNOWN)
+        def flat_call(op, gs, args, atom):
+            r_ = cg_(op, gs, args, atom) if cg_ is not None else UNKNOWN
+            # an opaque helper may be a reduction over the components (degree 1) or a norm (degree 0): not decided here;
+            # what a linear solve hands back per component is the same in every copy
+            if r_ == UNKNOWN and op.startswith("call:") and not op.startswith("call:matrix::linear::"):
+                return UNKNOWN
+            return flat(r_)
+        g2.call_grade = flat_call
         gc = g2.poly(E)
         kc = "R-GRADE:%s:accept-operand:copies" % fn
         if isinstance(gc, tuple) and gc[0] == 0 or gc is None:
